@@ -211,7 +211,7 @@ def small_n_functions(seed, nmax, per_n=1):
     for n in range(0, nmax + 1):
         for j in range(per_n):
             combo = FUNC_COMBOS[(n + 5 * j + seed) % len(FUNC_COMBOS)]
-            out.append(func_episode(r, n, combo=combo, reload=[r.choice(["full", "eps", "mmap"])] if n % 3 == 0 else None))
+            out.append(func_episode(r, n, combo=combo, reload=[r.choice(["full", "eps", "mmap", "eps8"])] if n % 3 == 0 else None))
     return out
 
 
@@ -224,9 +224,9 @@ def every_combo(seed, sizes=(0, 1, 3, 64, 100, 101, 1000), kinds=("func", "filte
             continue
         for n in sizes:
             if combo[2] == "func":
-                out.append(func_episode(r, n, combo=combo, reload=["full", "eps", "mmap"]))
+                out.append(func_episode(r, n, combo=combo, reload=["full", "eps", "mmap", "eps8"]))
             else:
-                out.append(filter_episode(r, n, combo=combo, reload=["full", "eps", "mmap"]))
+                out.append(filter_episode(r, n, combo=combo, reload=["full", "eps", "mmap", "eps8"]))
     return out
 
 
@@ -239,7 +239,7 @@ def regime_functions(seed, sizes, per_size=1, logics=None, budget_ms=None):
             combo = r.choice([c for c in FUNC_COMBOS if (logics is None or (c[0], c[1]) in logics)])
             h = [None, n, n // 2, 2 * n, 400000, 10 ** 7, 1000][(j + n) % 7]
             e = func_episode(r, n, combo=combo, hint=h, budget_ms=budget_ms,
-                             reload=[r.choice(["full", "eps", "mmap"])] if j == 0 else None)
+                             reload=[r.choice(["full", "eps", "mmap", "eps8"])] if j == 0 else None)
             out.append(e)
     return out
 
@@ -343,7 +343,7 @@ def small_n_filters(seed, nmax):
     out = []
     for n in range(0, nmax + 1):
         combo = FILTER_COMBOS[(n + seed) % len(FILTER_COMBOS)]
-        out.append(filter_episode(r, n, combo=combo, reload=[r.choice(["full", "eps", "mmap"])] if n % 4 == 0 else None))
+        out.append(filter_episode(r, n, combo=combo, reload=[r.choice(["full", "eps", "mmap", "eps8"])] if n % 4 == 0 else None))
     return out
 
 
@@ -495,7 +495,7 @@ def c12_episodes(seed):
                 q = [{"op": "len"}, {"op": "get", "idx": far, "wide": False},
                      {"op": "get", "from": 1000, "count": 3000, "wide": False},
                      {"op": "contains", "idx": [0]}, {"op": "hash_bits"}, {"op": "probe", "from": n, "m": 64},
-                     {"op": "reload", "mode": r.choice(["eps", "mmap", "full"])},
+                     {"op": "reload", "mode": r.choice(["eps", "mmap", "full", "eps8"])},
                      {"op": "get", "from": 1000, "count": 3000, "wide": False}]
             else:
                 bits = r.randrange(1, WBITS[combo[4]] + 1) if combo[3] == "bfv" else None
@@ -503,7 +503,7 @@ def c12_episodes(seed):
                 q = [{"op": "len"}, {"op": "contains", "idx": far}, {"op": "index", "idx": far},
                      {"op": "contains", "from": 1000, "count": 3000},
                      {"op": "get", "from": 1000, "count": 100, "wide": True},
-                     {"op": "reload", "mode": r.choice(["eps", "mmap", "full"])},
+                     {"op": "reload", "mode": r.choice(["eps", "mmap", "full", "eps8"])},
                      {"op": "contains", "from": 1000, "count": 3000}]
             out.append(episode([b] + q, kt=kt, kf=kf, src="ood"))
     # queries before any build / after a failed build
@@ -553,9 +553,9 @@ def c15_episodes(seed, thorough=False):
             fc = [c for c in COMBOS if (c[0], c[1]) == logic]
             for combo in fc[:2] if not thorough else fc:
                 if combo[2] == "func":
-                    out.append(func_episode(r, n, combo=combo, reload=["full", "eps", "mmap"], budget_ms=None))
+                    out.append(func_episode(r, n, combo=combo, reload=["full", "eps", "mmap", "eps8"], budget_ms=None))
                 else:
-                    out.append(filter_episode(r, n, combo=combo, reload=["full", "eps", "mmap"], budget_ms=None))
+                    out.append(filter_episode(r, n, combo=combo, reload=["full", "eps", "mmap", "eps8"], budget_ms=None))
     return out
 
 
